@@ -29,6 +29,7 @@ def handle (line : String) : String :=
     | "fileops" => handleFileOps args
     | "aesenc" | "aesdec" | "sha256" | "sha1" => handlePrim cmd args
     | "engine" => handleEngine args
+    | "romfs-parse" | "romfs-lookup" | "romfs-rep" => handleRomfs cmd args
     | "tmd-load" | "tmd-roundtrip" | "tmd-ser" => handleTmd cmd args
     | "exefs-parse" | "exefs-build" | "exefs-norm" | "exefs-lookup" => handleExefs cmd args
     | "ping" => "pong"
